@@ -199,6 +199,26 @@ def h_ibinop(lname, rkind, n, m, op):
     return h
 
 
+def h_shift_bool(cname, n):
+    """bool is a subclass of int: shifting by True / False is shifting by 1 / 0, for all four shift forms"""
+    def h(K):
+        import bitstring
+        cls = classes()[cname]
+        x = K.bits('x', n)
+        b = K.bool('count')
+        k = 1 if b else 0
+        forms = ['lshift', 'rshift'] + (['ilshift', 'irshift'] if cname in ('BitArray', 'BitStream') else [])
+        form = K.choice('form', forms)
+        s = mk(K, cls, x, 0 if cname in ('ConstBitStream', 'BitStream') else None)
+        cnt = True if b else False
+        r = call({'lshift': lambda: s << cnt, 'rshift': lambda: s >> cnt, 'ilshift': lambda: s.__ilshift__(cnt), 'irshift': lambda: s.__irshift__(cnt)}[form])
+        if not r.ok:
+            return K.fail('shift by a bool count raised', form=form, count=cnt, exc=r.excname)
+        exp = O.ref_concat(x[k:], O.zeros(k)) if 'lshift' in form else O.ref_concat(O.zeros(k), x[:n - k])
+        return K.check(same(raw(r.value), exp), 'shift by True / False must equal the shift by 1 / 0', form=form, got=raw(r.value), expected=exp)
+    return h
+
+
 def lsb0_mode(h):
     """the same harness with options.lsb0 set: none of these operators takes a position, so the same sequence-level oracle applies"""
     def g(K):
@@ -255,6 +275,9 @@ def conditions(tier):
                 if l in ('BitArray', 'BitStream'):
                     conds.append(Cond(f"C16.{'ilshift' if left else 'irshift'}[{l},n={n}]", h_shift(l, n, left, True),
                                       f'all {n}-bit contents x every Python int shift count', D_ISH, {'n': n}, timeout=T))
+    for l in CLS:
+        for n in ([4] if q else [1, 4, 9]):
+            conds.append(Cond(f'C16.shift-bool[{l},n={n}]', h_shift_bool(l, n), f'all {n}-bit contents x count in {{True, False}} x every shift form', D_SH, {'n': n}, timeout=T))
     # the whole family once more with options.lsb0 set (bit-wise operators and shifts are position-free)
     for l in (['BitArray', 'Bits'] if q else CLS):
         for n in ([1, 9] if q else [0, 1, 8, 9, 17]):
